@@ -46,6 +46,7 @@ fn dispatch(cmd: &str, rest: &[String]) {
 		"ind-catalog" => indicators::catalog(rest),
 		"cfg-replay" => indicators::cfg_replay(rest),
 		"ind-api-replay" => indicators::api_replay(rest),
+		"indparams-replay" => indicators::params_replay(rest),
 		"ind-record" => indicators::record(rest),
 		"soak-record" => soak::record(rest),
 		"num-record" => num::record(rest),
